@@ -429,6 +429,8 @@ def s_plain(s):
              patterns=s['patterns'], name=s.get('name'))
     if s.get('construct'):
         d['construct'] = s['construct']
+    if s.get('nodes'):
+        d['nodes'] = s['nodes']
     return d
 
 
